@@ -7,6 +7,7 @@ CONSTANTS
   ReuseInterp = FALSE
   SharedShellArgs = FALSE
   Cmds = FALSE
+  Extra = "none"
 INVARIANTS NoSharedWrite NoForeignRead Equivalent RegexesAsCompiled
 PROPERTIES Immutable
 CHECK_DEADLOCK FALSE
